@@ -132,15 +132,19 @@ impl Model {
 // Canonical form
 // ---------------------------------------------------------------------------
 
-fn rel_ms(t: Option<Instant>, now: Instant) -> i64 {
+/// An instant as a signed offset from `now`, to the nanosecond (two fields: whole seconds
+/// and the rest; durations of centuries do not fit into 64 bits of nanoseconds).
+fn rel(c: &mut Canon, t: Option<Instant>, now: Instant) {
     match t {
-        None => i64::MIN,
+        None => {
+            c.i64(i64::MIN);
+            c.u32(0);
+        }
         Some(t) => {
-            if t >= now {
-                t.duration_since(now).as_millis() as i64
-            } else {
-                -(now.duration_since(t).as_millis() as i64)
-            }
+            let (neg, d) = if t >= now { (false, t.duration_since(now)) } else { (true, now.duration_since(t)) };
+            let secs = d.as_secs() as i64;
+            c.i64(if neg { -secs } else { secs });
+            c.u32(d.subsec_nanos() | if neg { 1 << 31 } else { 0 });
         }
     }
 }
@@ -205,8 +209,8 @@ fn canon_entry(c: &mut Canon, e: &EntrySnap, s: &Snapshot, now: Instant, vids: &
     c.u32(it.id(e.info_addr));
     c.u32(e.weight);
     c.u32(e.accounted);
-    c.i64(rel_ms(e.last_accessed, now));
-    c.i64(rel_ms(e.last_modified, now));
+    rel(c, e.last_accessed, now);
+    rel(c, e.last_modified, now);
     c.u8(e.dirty as u8);
     c.u8(e.admitted as u8);
     match e.ao_node {
@@ -236,7 +240,7 @@ fn canon_deque(c: &mut Canon, d: &DequeSnap, now: Instant, it: &mut Interner) {
     for n in &d.nodes {
         c.u64(n.key);
         c.u32(it.id(n.info_addr));
-        c.i64(rel_ms(n.timestamp, now));
+        rel(c, n.timestamp, now);
     }
     match d.cursor {
         None => c.u8(0),
@@ -277,8 +281,8 @@ pub fn canon_impl(c: &mut Canon, s: &Snapshot, now: Instant, model: Option<&Mode
         c.u64(*w);
     }
     c.tag("T");
-    c.i64(rel_ms(s.valid_after, now));
-    c.i64(rel_ms(s.sync_after, now));
+    rel(c, s.valid_after, now);
+    rel(c, s.sync_after, now);
     c.u8(s.sync_running as u8);
     c.tag("R");
     c.u32(s.read_ops.len() as u32);
@@ -288,7 +292,7 @@ pub fn canon_impl(c: &mut Canon, s: &Snapshot, now: Instant, model: Option<&Mode
                 c.u8(1);
                 c.u64(*hash);
                 canon_entry(c, entry, s, now, &vids, &mut it);
-                c.i64(rel_ms(Some(*timestamp), now));
+                rel(c, Some(*timestamp), now);
             }
             OpSnap::Miss { hash } => {
                 c.u8(2);
